@@ -106,6 +106,8 @@ impl<I: Interner> Forest<I> {
                     if state.forest.tables[table].mark_refined(answer_index) {
                         let answer = state.forest.answer(table, answer_index);
                         if let Some(strand) = state.create_refinement_strand(table, answer) {
+                            #[cfg(chalk_verif)]
+                            crate::verif::ev_strand("RefineLate", &strand);
                             state.forest.tables[table].enqueue_strand(strand);
                         }
                     }
@@ -1044,9 +1046,15 @@ impl<'forest, I: Interner> SolveState<'forest, I> {
                 canonical_strand.value.ex_clause.subgoals[selected_subgoal.subgoal_index]
             {
                 if !answer.subst.value.delayed_subgoals.is_empty() {
+                    #[cfg(chalk_verif)]
+                    let mut verif_refine = String::new();
                     if self.forest.tables[subgoal_table].mark_refined(answer_index) {
                         let answer = self.forest.answer(subgoal_table, answer_index);
                         if let Some(strand) = self.create_refinement_strand(subgoal_table, answer) {
+                            #[cfg(chalk_verif)]
+                            {
+                                verif_refine = crate::verif::strand_json(&strand);
+                            }
                             self.forest.tables[subgoal_table].enqueue_strand(strand);
                         }
                     }
@@ -1057,6 +1065,10 @@ impl<'forest, I: Interner> SolveState<'forest, I> {
                         .unwrap()
                         .answer_index
                         .increment();
+                    #[cfg(chalk_verif)]
+                    chalk_ir::verif::emit("NegSkip", |f| {
+                        f.raw("refine", &format!("[{}]", verif_refine));
+                    });
                     self.stack.top().active_strand = Some(canonical_strand);
                     return Ok(());
                 }
